@@ -713,6 +713,9 @@ class Interp(object):
         if isinstance(v, (Poly, Rat)):
             if isinstance(v, Poly) and v.is_const():
                 return not v.is_zero()
+            r = ndarr.s_cmp('!=', v, 0)          # sign information / an ordering hypothesis may settle it
+            if r is True or r is False:
+                return r
             if self.branch_oracle is not None:
                 r = self.branch_oracle(self, node, fr, v)
                 if r is not None:
